@@ -93,6 +93,8 @@ def strategy(tier: str) -> Any:
 
 
 def run_shard(H: Harness) -> None:
+    if H.tier == "thorough":
+        sc.run_small_scope(H, ("fail",), flavours=(False, True))
     H.run_hypothesis(strategy)
 
 
